@@ -113,6 +113,17 @@ struct Engine
             viol("C17", "invalid_after_failure", fmt("%s: size() %zu > capacity() %zu", who, n, cv.capacity()));
             return;
         }
+        if (n == 0 && cv.data_begin() != cv.data_end())
+        {
+            // e.g. an end pointer left in a block that was given up: the next emplace_back within capacity() writes there
+            viol("C17,C18", "invalid_after_failure", fmt("%s: size() == 0 but data_begin() %p != data_end() %p", who, static_cast<const void*>(cv.data_begin()), static_cast<const void*>(cv.data_end())));
+            return;
+        }
+        if (!cv.data_begin() && cv.capacity() != 0 && cv.memory_consumption() == 0)
+        {
+            viol("C17", "invalid_after_failure", fmt("%s: capacity() == %zu without a block", who, cv.capacity()));
+            return;
+        }
         if (!cv.data_begin() && cv.memory_consumption() != 0)
         {
             viol("C17,C05", "invalid_after_failure", fmt("%s: owns no block but memory_consumption() == %zu", who, cv.memory_consumption()));
